@@ -75,7 +75,7 @@ def run_sampler(sc, client):
     try:
         tm = T1Model(make_table(sc), name="c04", n_params=sc.get("n_params", 1))
         kind = sc["kind"]
-        maxpar = sc["maxpar"] if client.__class__.__name__ == "ScheduledClient" else 1
+        maxpar = sc["maxpar"] if not client.__class__.__module__.endswith("native") else 1
         if kind.startswith("rej"):
             s = elfi.Rejection(tm.model["d"], batch_size=sc["bs"], seed=sc["seed"], max_parallel_batches=maxpar,
                                output_names=["S1"])
@@ -271,6 +271,38 @@ def record_client(sc):
     return dict(events=events)
 
 
+def check_real_multiprocessing(ctx):
+    """clause a with real worker processes: the multiprocessing client (2 and 3 processes) returns the sequential result"""
+    import elfi.clients.multiprocessing as mp
+    bases = [b for b in base_scenarios(ctx) if b["kind"] in ("rej-thr", "smc-thr", "rej-q")]
+    rnd = random.Random(ctx.seed + 21)
+    for b in rnd.sample(bases, 3 if ctx.quick else 12):
+        for nproc in ((2,) if ctx.quick else (2, 3)):
+            sc = dict(b, maxpar=nproc + 1)
+            seq = seq_digest(sc)
+            cl = mp.Client(num_processes=nproc)
+            events = []
+            try:
+                with time_limit(600):
+                    res, _ = run_sampler(dict(sc), cl)
+                events.append(dict(ev="end", id=-1, left=len(cl.tasks), digest=sample_digest(res, sc["kind"].startswith("smc")), nb=0, obj=0, np=0, nx=0))
+            except Exception as ex:
+                events.append(dict(ev="end", id=-1, left=len(cl.tasks), digest="raised:" + type(ex).__name__, nb=-1, obj=-1, np=-1, nx=-1))
+            finally:
+                try:
+                    cl.reset()
+                except Exception:
+                    pass
+            for e in events:
+                e.setdefault("bi", -1)
+                e.setdefault("ans", False)
+            tr = dict(maxpar=sc["maxpar"], seq=seq, kind=sc["kind"], events=events)
+            v = ctx.validate("Batches_Trace", [tr], name="realmp")[0]
+            ctx.case(("real-mp", sc["kind"], sc["bs"], sc["n"], nproc), nontrivial=True)
+            if v["verdict"] != "ok":
+                ctx.fail(v["verdict"], dict(sc, client="multiprocessing", nproc=nproc), detail=events[-1])
+
+
 def check_clients(ctx):
     ctx.tlc("ClientContract", "MC_ClientContract", cfg_text="""SPECIFICATION Spec
 CONSTANTS
@@ -316,6 +348,7 @@ def run(ctx):
                     simulate="num=%d" % num, depth=120, seed=ctx.seed + 1, workers=8, coverage=False, timeout=900,
                     label="simulate Batches MaxPar=%d rounds=%d K=%d" % (mp, r, k))
     check_clients(ctx)
+    check_real_multiprocessing(ctx)
     scs = scenarios(ctx)
     traces = check_scenarios(ctx, scs)
     for i in (0, len(traces) // 2, len(traces) - 1):
